@@ -71,6 +71,7 @@ type Expect struct {
 	ListSame []string `json:"list_same,omitempty"` // result is an array of exactly these objects (by pointer)
 	StrSet   []string `json:"str_set,omitempty"`   // result is an array of exactly these strings, in any order
 	IsSet    bool     `json:"is_set,omitempty"`
+	AnyOf    []string `json:"any_of,omitempty"` // "inspect:<text>" or "err:<Kind>": the outcome is one of these
 }
 
 type Query struct {
@@ -107,6 +108,16 @@ func judgeQuery(in *interp.Interp, env *object.Env, q Query) (got string, ok boo
 	e := q.Expect
 	switch {
 	case o.Kind == interp.HostPanic:
+		return got, false
+	case e.AnyOf != nil:
+		for _, a := range e.AnyOf {
+			if o.Kind == interp.PanErr && a == "err:"+o.ErrKind {
+				return got, true
+			}
+			if o.Kind == interp.Value && a == "inspect:"+interp.SafeInspect(o.Obj) {
+				return got, true
+			}
+		}
 		return got, false
 	case e.ErrKind != nil:
 		return got, o.Kind == interp.PanErr && o.ErrKind == *e.ErrKind
@@ -265,6 +276,15 @@ func (m *machine) add(t *rapid.T, how string) {
 		n.id = a.id
 		n.twin, a.twin, b.twin = true, true, true
 		src = n.name + " := {**" + a.name + ", **" + b.name + "}"
+	case "expandCall":
+		// existing objects are expanded into keyword arguments of a call (several ** in one call); they must stay what they were
+		a := m.nodes[rapid.IntRange(0, len(m.nodes)-1).Draw(t, "first")]
+		b := m.nodes[rapid.IntRange(0, len(m.nodes)-1).Draw(t, "second")]
+		form := rapid.SampledFrom([]string{"{|| 1}(**%s, **%s)", "{|a: 0, zz: 0| [a, zz]}(**%s, **%s)", "{|x| \\_}(1, **%s, q9: 2, **%s)", "{}.bear(**%s, **%s)", "[1]@{|x| x}(**%s, **%s)"}).Draw(t, "form")
+		m.in.Run(fmt.Sprintf(form, a.name, b.name), interp.Opts{Env: m.env})
+		m.history = append(m.history, fmt.Sprintf(form, a.name, b.name))
+		vt.Class("step expandCall")
+		return
 	case "bearFrom", "broFrom":
 		// the source of the new object's own properties is an existing object: it must stay what it was
 		p := m.nodes[rapid.IntRange(0, len(m.nodes)-1).Draw(t, "parent")]
@@ -342,6 +362,31 @@ func (m *machine) queries(o *node, name string, nargs int) (qs []Query, class st
 			nontrivial = true
 			qs = append(qs, Query{"call", call, Expect{Inspect: sp(fmt.Sprintf("[%d, %d, %q, [%s]]", o.id, mp.v, name, argList))}})
 		}
+	}
+	// Obj#callProp ("works just as property calls", docs/reference/calls.md) and the dispatch of an operator named like
+	// the property: a callable found on the chain is called like the plain call; for an absent name today's
+	// implementation yields nil where the documentation promises the plain call's outcome - either is accepted,
+	// anything else (a shifted argument list, another object's property) is not.
+	cp := fmt.Sprintf("Obj.callProp(%s, %s", o.name, sym)
+	if nargs > 0 {
+		cp += ", " + argList
+	}
+	cp += ")"
+	switch {
+	case found && (p.kind == "meth" || p.kind == "func"):
+		qs = append(qs, Query{"callProp", cp, Expect{Inspect: sp(fmt.Sprintf("[%d, %d, %s]", o.id, p.v, x))}})
+	case !found && m.builtin[name] == "":
+		any := []string{"inspect:nil"}
+		_, mp, _, mfound := o.find("_missing")
+		switch {
+		case !mfound:
+			any = append(any, "err:NoPropErr")
+		case mp.kind == "missingval":
+			any = append(any, "inspect:"+mp.show())
+		default:
+			any = append(any, "inspect:"+fmt.Sprintf("[%d, %d, %q, [%s]]", o.id, mp.v, name, argList))
+		}
+		qs = append(qs, Query{"callProp", cp, Expect{AnyOf: any}})
 	}
 	if found {
 		if depth >= 2 {
@@ -454,16 +499,17 @@ func TestForest(t *testing.T) {
 		m.add(rt, "lit")
 		steps := 0
 		rt.Repeat(map[string]func(*rapid.T){
-			"lit":      func(t *rapid.T) { m.add(t, "lit") },
-			"bear":     func(t *rapid.T) { m.add(t, "bear") },
-			"bear2":    func(t *rapid.T) { m.add(t, "bear") },
-			"bro":      func(t *rapid.T) { m.add(t, "bro") },
-			"bearFrom": func(t *rapid.T) { m.add(t, "bearFrom") },
-			"merge":    func(t *rapid.T) { m.add(t, "merge") },
-			"broFrom":  func(t *rapid.T) { m.add(t, "broFrom") },
-			"query":    func(t *rapid.T) { m.query(t) },
-			"query2":   func(t *rapid.T) { m.query(t) },
-			"query3":   func(t *rapid.T) { m.query(t) },
+			"lit":        func(t *rapid.T) { m.add(t, "lit") },
+			"bear":       func(t *rapid.T) { m.add(t, "bear") },
+			"bear2":      func(t *rapid.T) { m.add(t, "bear") },
+			"bro":        func(t *rapid.T) { m.add(t, "bro") },
+			"bearFrom":   func(t *rapid.T) { m.add(t, "bearFrom") },
+			"merge":      func(t *rapid.T) { m.add(t, "merge") },
+			"expandCall": func(t *rapid.T) { m.add(t, "expandCall") },
+			"broFrom":    func(t *rapid.T) { m.add(t, "broFrom") },
+			"query":      func(t *rapid.T) { m.query(t) },
+			"query2":     func(t *rapid.T) { m.query(t) },
+			"query3":     func(t *rapid.T) { m.query(t) },
 			"": func(t *rapid.T) {
 				steps++
 				if len(m.nodes) > 14 {
